@@ -230,6 +230,18 @@ def _pool_script(Pool):
         obs['use_after_exit'] = 'none'
     except ValueError as e:
         obs['use_after_exit'] = str(e)
+    import threading
+    outs = {}
+
+    def _own_pool(k):
+        with Pool(2) as inner:
+            outs[k] = inner.map(_sq, range(k, k + 4))
+    ths = [threading.Thread(target=_own_pool, args=(k,)) for k in (0, 10, 20)]
+    for t in ths:
+        t.start()
+    for t in ths:
+        t.join()
+    obs['threads_with_private_pools'] = [outs.get(k) for k in (0, 10, 20)]
     for bad in (0, -1):
         try:
             Pool(bad)
@@ -286,6 +298,13 @@ def _exec_script(mod):
         obs['submit_after_shutdown'] = 'RuntimeError'
     with mod.ThreadPoolExecutor(max_workers=2) as ex:
         obs['thread_map'] = list(ex.map(_sq, range(5)))
+    import asyncio
+
+    async def _gather():
+        loop = asyncio.get_running_loop()
+        with mod.ProcessPoolExecutor(max_workers=2) as ex2:
+            return await asyncio.gather(*[loop.run_in_executor(ex2, _sq, i) for i in range(6)])
+    obs['asyncio_run_in_executor'] = asyncio.run(_gather())
     return obs
 
 
